@@ -656,3 +656,744 @@ Proof.
   - intros l. destruct l; cbn; rewrite ?Ec; reflexivity.
   - cbn. rewrite Ec. cbn. rewrite Hs. reflexivity.
 Qed.
+
+(** * What well-formedness depends on *)
+(** [u'] has the arcs (names, kinds), the base and the distributions of [u] *)
+Definition skel (u' u : uni) : Prop :=
+  shape (u_edges u') = shape (u_edges u) /\ g_base (u_graph u') = g_base (u_graph u) /\ u_dists u' = u_dists u.
+Lemma skel_refl u : skel u u. Proof. repeat split. Qed.
+Lemma skel_trans u1 u2 u3 : skel u1 u2 -> skel u2 u3 -> skel u1 u3.
+Proof. intros (A & B & C) (A' & B' & C'). repeat split; etransitivity; eassumption. Qed.
+Lemma shape_eqb_congr e1 : forall e2 f1 f2, shape e1 = shape f1 -> shape e2 = shape f2 -> shape_eqb e1 e2 = shape_eqb f1 f2.
+Proof.
+  induction e1 as [|x e1 IH]; intros e2 f1 f2 H1 H2; destruct f1 as [|y f1]; cbn [shape map] in H1; try discriminate.
+  - destruct e2, f2; cbn [shape map] in H2; try discriminate; reflexivity.
+  - injection H1 as Hn Hk Hr. destruct e2 as [|x2 e2], f2 as [|y2 f2]; cbn [shape map] in H2; try discriminate; [reflexivity|].
+    injection H2 as Hn2 Hk2 Hr2. cbn [shape_eqb]. rewrite Hn, Hk, Hn2, Hk2, (IH e2 f1 f2 Hr Hr2). reflexivity.
+Qed.
+Lemma skel_names_ok u' u : skel u' u -> u_names_ok u' = u_names_ok u.
+Proof.
+  intros (Hs & _ & Hd). unfold u_names_ok, u_edge_names, u_tstages. rewrite (shape_names _ _ Hs), Hd. reflexivity.
+Qed.
+Lemma skel_same_shape i' i c' c : skel i' i -> skel c' c -> same_shape i' c' = same_shape i c.
+Proof.
+  intros (Hs & Hb & _) (Hs' & Hb' & _). unfold same_shape. rewrite Hb, Hb', (shape_eqb_congr _ _ _ _ Hs Hs'). reflexivity.
+Qed.
+Lemma skel_b_names_ok b' b : skel (b_ipsi b') (b_ipsi b) -> skel (b_contra b') (b_contra b) -> b_names_ok b' = b_names_ok b.
+Proof.
+  intros Hi Hc. unfold b_names_ok, same_dist_keys.
+  rewrite (skel_names_ok _ _ Hi), (skel_names_ok _ _ Hc), (skel_same_shape _ _ _ _ Hi Hc).
+  destruct Hi as (_ & _ & ->). destruct Hc as (_ & _ & ->). reflexivity.
+Qed.
+Lemma u_put_sel_skel sel u qs : skel (u_put_sel sel u qs) u.
+Proof. unfold skel, u_put_sel, u_edges. cbn [u_with_graph u_graph with_edges g_edges g_base u_dists]. rewrite edges_put_shape. repeat split. Qed.
+Lemma u_with_dists_T u ds : u_T (u_with_dists u ds) = u_T u. Proof. reflexivity. Qed.
+Lemma u_with_dists_L u ds : u_L (u_with_dists u ds) = u_L u. Proof. reflexivity. Qed.
+
+(** * From the leaf-wise description to the invariant *)
+Section MidRel.
+  Variables (tr : leaf_id -> uni -> uni) (m m' : midline).
+  Hypothesis Hrel : mid_rel tr m m'.
+
+  Lemma mr_ext_i : ext_i m' = tr LExtIpsi (ext_i m).
+  Proof. pose proof (mr_leaf _ _ _ Hrel LExtIpsi) as H. cbn in H. injection H as H. exact H. Qed.
+  Lemma mr_ext_c : ext_c m' = tr LExtContra (ext_c m).
+  Proof. pose proof (mr_leaf _ _ _ Hrel LExtContra) as H. cbn in H. injection H as H. exact H. Qed.
+  Lemma mr_noext_i : noext_i m' = tr LNoextIpsi (noext_i m).
+  Proof. pose proof (mr_leaf _ _ _ Hrel LNoextIpsi) as H. cbn in H. injection H as H. exact H. Qed.
+  Lemma mr_noext_c : noext_c m' = tr LNoextContra (noext_c m).
+  Proof. pose proof (mr_leaf _ _ _ Hrel LNoextContra) as H. cbn in H. injection H as H. exact H. Qed.
+  Lemma mr_leaf_inv l u' : ml_leaf m' l = Some u' -> exists u, ml_leaf m l = Some u /\ u' = tr l u.
+  Proof. rewrite (mr_leaf _ _ _ Hrel l). destruct (ml_leaf m l) as [u|]; [|discriminate]. intros [= <-]. exists u. split; reflexivity. Qed.
+
+  (** well-formedness needs the skeleton of every leaf *)
+  Lemma mid_rel_wf : (forall l u, ml_leaf m l = Some u -> skel (tr l u) u) -> m_wf m = true -> m_wf m' = true.
+  Proof.
+    intros Hsk. unfold m_wf. rewrite !andb_true_iff. intros [[[He Hn] Hc] Hk]. repeat split.
+    - rewrite <- He. apply skel_b_names_ok.
+      + fold (ext_i m') (ext_i m). rewrite mr_ext_i. apply Hsk. reflexivity.
+      + fold (ext_c m') (ext_c m). rewrite mr_ext_c. apply Hsk. reflexivity.
+    - rewrite <- Hn. apply skel_b_names_ok.
+      + fold (noext_i m') (noext_i m). rewrite mr_noext_i. apply Hsk. reflexivity.
+      + fold (noext_c m') (noext_c m). rewrite mr_noext_c. apply Hsk. reflexivity.
+    - pose proof (mr_leaf _ _ _ Hrel LCentralIpsi) as Hi. pose proof (mr_leaf _ _ _ Hrel LCentralContra) as Hcc.
+      pose proof (mr_csym _ _ _ Hrel) as Hsy. cbn [ml_leaf] in Hi, Hcc.
+      destruct (ml_central m') as [c'|], (ml_central m) as [c|] eqn:Ec; cbn [option_map opt_ok] in *; try discriminate; [|reflexivity].
+      injection Hi as Hi. injection Hcc as Hcc. injection Hsy as Hsy. rewrite Hsy.
+      rewrite (skel_b_names_ok c' c); [exact Hc | rewrite Hi | rewrite Hcc]; apply Hsk; cbn [ml_leaf]; rewrite Ec; reflexivity.
+    - rewrite (mr_unknown _ _ _ Hrel). exact Hk.
+  Qed.
+
+  (** configuration *)
+  Lemma mid_rel_config : (forall l u, ml_leaf m l = Some u -> same_config (tr l u) u) -> m_same_config m -> m_same_config m'.
+  Proof.
+    intros Hc Hm u' Hu'. rewrite mr_ext_i.
+    assert (He : same_config (tr LExtIpsi (ext_i m)) (ext_i m)) by (apply Hc; reflexivity).
+    apply in_all_leaves in Hu'. destruct Hu' as [(l & E)|(k & E & H)].
+    - destruct (mr_leaf_inv l u' E) as (u & Eu & ->).
+      eapply same_config_trans; [apply Hc, Eu|]. eapply same_config_trans; [|apply same_config_sym, He].
+      apply Hm, in_all_leaves. left. exists l. exact Eu.
+    - eapply same_config_trans; [|apply same_config_sym, He]. apply Hm, in_all_leaves. right. exists k.
+      rewrite <- (mr_unknown _ _ _ Hrel). tauto.
+  Qed.
+
+  (** sharing, from the values every leaf ends up with *)
+  Lemma mid_rel_shared TI LI LC :
+    (forall l u, In l (LCentralContra :: ipsi_ids) -> ml_leaf m l = Some u -> u_T (tr l u) = TI) ->
+    (forall mix, ml_mixing m' = Some mix ->
+       u_T (tr LExtContra (ext_c m)) = mixed_items mix TI (u_T (tr LNoextContra (noext_c m)))) ->
+    (forall l u, In l ipsi_ids -> ml_leaf m l = Some u -> u_L (tr l u) = LI) ->
+    (forall l u, In l contra_ids -> ml_leaf m l = Some u -> u_L (tr l u) = LC) ->
+    (ml_symL m = true -> LC = LI) ->
+    m_shared m'.
+  Proof.
+    intros HT Hmix HLi HLc Hsym.
+    assert (ETI : u_T (ext_i m') = TI) by (rewrite mr_ext_i; apply HT; [cbn; tauto | reflexivity]).
+    assert (ELI : u_L (ext_i m') = LI) by (rewrite mr_ext_i; apply HLi; [cbn; tauto | reflexivity]).
+    assert (ELC : u_L (ext_c m') = LC) by (rewrite mr_ext_c; apply HLc; [cbn; tauto | reflexivity]).
+    unfold m_shared. rewrite ETI, ELI, ELC. repeat split.
+    - intros u' Hu'. apply in_ipsi_leaves in Hu'. destruct Hu' as (l & Hl & E).
+      destruct (mr_leaf_inv l u' E) as (u & Eu & ->). apply HT; [right; exact Hl | exact Eu].
+    - intros c' Ec'. assert (E : ml_leaf m' LCentralContra = Some (b_contra c')) by (cbn; rewrite Ec'; reflexivity).
+      destruct (mr_leaf_inv _ _ E) as (u & Eu & ->). apply HT; [left; reflexivity | exact Eu].
+    - intros mix Hm. rewrite mr_ext_c, mr_noext_c. apply Hmix, Hm.
+    - intros u' Hu'. apply in_ipsi_leaves in Hu'. destruct Hu' as (l & Hl & E).
+      destruct (mr_leaf_inv l u' E) as (u & Eu & ->). apply HLi; assumption.
+    - intros u' Hu'. apply in_contra_leaves in Hu'. destruct Hu' as (l & Hl & E).
+      destruct (mr_leaf_inv l u' E) as (u & Eu & ->). apply HLc; assumption.
+    - rewrite (mr_symL _ _ _ Hrel). exact Hsym.
+  Qed.
+End MidRel.
+
+(** what no parameter setter changes: which children exist, and the configuration *)
+Definition m_frame (m m' : midline) : Prop := m_children m' = m_children m /\ same_config (ext_i m') (ext_i m).
+Lemma m_frame_refl m : m_frame m m. Proof. split; [reflexivity | apply same_config_refl]. Qed.
+Lemma m_frame_trans m1 m2 m3 : m_frame m1 m2 -> m_frame m2 m3 -> m_frame m1 m3.
+Proof. intros [A B] [A' B']. split; [congruence | eapply same_config_trans; eassumption]. Qed.
+Lemma mid_rel_frame tr m m' : mid_rel tr m m' -> (forall l u, ml_leaf m l = Some u -> same_config (tr l u) u) -> m_frame m m'.
+Proof.
+  intros Hrel Hc. split.
+  - unfold m_children. rewrite (mr_unknown _ _ _ Hrel). pose proof (mr_leaf _ _ _ Hrel LCentralIpsi) as H. cbn [ml_leaf] in H.
+    destruct (ml_central m'), (ml_central m); cbn in H; try discriminate; reflexivity.
+  - rewrite (mr_ext_i _ _ _ Hrel). apply Hc. reflexivity.
+Qed.
+
+(** * Midline.set_lnl_spread_params *)
+Definition inb (l : leaf_id) (ls : list leaf_id) : bool := existsb (leaf_eqb l) ls.
+Lemma inb_In l ls : inb l ls = true <-> In l ls.
+Proof.
+  unfold inb. rewrite existsb_exists. split.
+  - intros (x & Hx & E). apply leaf_eqb_eq in E. subst. exact Hx.
+  - intros H. exists l. split; [exact H | apply leaf_eqb_refl].
+Qed.
+Lemma inb_false l ls : inb l ls = false <-> ~ In l ls.
+Proof. rewrite <- inb_In. destruct (inb l ls); split; congruence. Qed.
+
+Lemma ml_with_leaf_mixing m l u : ml_mixing (ml_with_leaf m l u) = ml_mixing m.
+Proof. destruct l; cbn; try reflexivity; destruct (ml_central m); reflexivity. Qed.
+Lemma ml_with_leaf_midext m l u : ml_midext (ml_with_leaf m l u) = ml_midext m.
+Proof. destruct l; cbn; try reflexivity; destruct (ml_central m); reflexivity. Qed.
+
+Lemma wf_leaf_names_ok m l u : m_wf m = true -> ml_leaf m l = Some u -> u_names_ok u = true.
+Proof.
+  unfold m_wf, b_names_ok. rewrite !andb_true_iff. intros [[[He Hn] Hc] _] E.
+  destruct l; cbn [ml_leaf] in E.
+  1,2: destruct (ml_central m) as [c|]; [|discriminate]; cbn [opt_ok option_map] in *; injection E as <-;
+       rewrite ?andb_true_iff in Hc; tauto.
+  all: injection E as <-; rewrite ?andb_true_iff in *; tauto.
+Qed.
+
+Section Block.
+  Variables (a : args) (kw : kwargs) (L0 : list (path * Qc)).
+  Let put qs (ls : list leaf_id) : leaf_id -> uni -> uni := fun l u => if inb l ls then u_put_sel sel_lnl u qs else u.
+
+  Lemma lnl_block_spec ls : forall m, NoDup ls -> ls <> [] -> ml_leaf m (last ls LExtIpsi) <> None ->
+    (forall l u, In l ls -> ml_leaf m l = Some u -> u_names_ok u = true /\ u_L u = L0) ->
+    snd (m_set_lnl_block m ls a kw) <> None ->
+    exists qs, all_unit (plan (u_lk kw) L0 a) = Some qs /\ length qs = length L0 /\
+               snd (m_set_lnl_block m ls a kw) = Some (skipn (length L0) a) /\
+               mid_rel (put qs ls) m (fst (m_set_lnl_block m ls a kw)) /\
+               ml_mixing (fst (m_set_lnl_block m ls a kw)) = ml_mixing m /\
+               ml_midext (fst (m_set_lnl_block m ls a kw)) = ml_midext m.
+  Proof.
+    induction ls as [|l r IH]; intros m Hnd Hne Hlast Hall Hret; [contradiction|].
+    inversion Hnd as [|? ? Hni Hnd']; subst. cbn [m_set_lnl_block] in *.
+    destruct (ml_leaf m l) as [u|] eqn:El.
+    - destruct (Hall l u (or_introl eq_refl) El) as [Hok HL].
+      rewrite u_set_lnl_is_leaf_set in *.
+      destruct (leaf_set_cases sel_lnl u a kw Hok) as [N|(qs & E & Hlen & R)].
+      + exfalso. destruct (leaf_set sel_lnl u a kw) as [u' o]. cbn [snd] in N. subst o. apply Hret. reflexivity.
+      + change (u_sel_items sel_lnl u) with (u_L u) in E, Hlen, R. rewrite HL in E, Hlen, R. rewrite R in *. cbn [fst snd] in *.
+        set (u' := u_put_sel sel_lnl u qs) in *. set (m1 := ml_with_leaf m l u') in *.
+        pose proof (mid_rel_with_leaf m l u u' El) as Hr1. fold m1 in Hr1.
+        destruct r as [|l2 r2].
+        * exists qs. cbn [fst snd]. split; [|split; [|split; [|split; [|split]]]]; try assumption; try reflexivity.
+          -- eapply mid_rel_ext; [|exact Hr1]. intros l' v Hv. unfold put. cbn [inb existsb]. rewrite orb_false_r.
+             destruct (leaf_eqb l' l) eqn:Eq; [|reflexivity]. apply leaf_eqb_eq in Eq. subst l'. rewrite El in Hv. injection Hv as <-. reflexivity.
+          -- apply ml_with_leaf_mixing.
+          -- apply ml_with_leaf_midext.
+        * assert (Hsame : forall l', In l' (l2 :: r2) -> ml_leaf m1 l' = ml_leaf m l').
+          { intros l' Hl'. rewrite (mr_leaf _ _ _ Hr1 l'). destruct (leaf_eqb l' l) eqn:Eq.
+            - apply leaf_eqb_eq in Eq. subst l'. contradiction.
+            - destruct (ml_leaf m l'); reflexivity. }
+          destruct (IH m1 Hnd') as (qs' & E' & Hlen' & R' & Hr2 & Hmix & Hmid).
+          -- discriminate.
+          -- cbn [last] in Hlast. rewrite Hsame; [exact Hlast|]. clear. generalize l2. induction r2 as [|x r2 IH]; intros y; [left; reflexivity|].
+             cbn [last]. right. apply IH.
+          -- intros l' v Hl' Hv. rewrite Hsame in Hv by exact Hl'. apply (Hall l' v); [right; exact Hl' | exact Hv].
+          -- exact Hret.
+          -- rewrite E in E'. injection E' as <-. exists qs. split; [|split; [|split; [|split; [|split]]]]; try assumption.
+             ++ eapply mid_rel_ext; [|exact (mid_rel_trans _ _ _ _ _ Hr1 Hr2)]. intros l' v Hv. cbv beta. unfold put.
+                change (inb l' (l :: l2 :: r2)) with (leaf_eqb l' l || inb l' (l2 :: r2)).
+                destruct (leaf_eqb l' l) eqn:Eq; cbn [orb].
+                ** apply leaf_eqb_eq in Eq. subst l'. rewrite El in Hv. injection Hv as <-.
+                   apply inb_false in Hni. rewrite Hni. reflexivity.
+                ** reflexivity.
+             ++ rewrite Hmix. apply ml_with_leaf_mixing.
+             ++ rewrite Hmid. apply ml_with_leaf_midext.
+    - destruct r as [|l2 r2]; [exfalso; apply Hlast; exact El|].
+      destruct (IH m Hnd') as (qs & E & Hlen & R & Hr & Hmix & Hmid).
+      + discriminate.
+      + exact Hlast.
+      + intros l' v Hl' Hv. apply (Hall l' v); [right; exact Hl' | exact Hv].
+      + exact Hret.
+      + exists qs. split; [|split; [|split; [|split; [|split]]]]; try assumption.
+        eapply mid_rel_ext; [|exact Hr]. intros l' v Hv. unfold put.
+        change (inb l' (l :: l2 :: r2)) with (leaf_eqb l' l || inb l' (l2 :: r2)).
+        destruct (leaf_eqb l' l) eqn:Eq; [|reflexivity]. apply leaf_eqb_eq in Eq. subst l'. rewrite El in Hv. discriminate.
+  Qed.
+End Block.
+
+Lemma shared_ids m : m_shared m ->
+  (forall l u, In l (LCentralContra :: ipsi_ids) -> ml_leaf m l = Some u -> u_T u = u_T (ext_i m)) /\
+  (forall l u, In l ipsi_ids -> ml_leaf m l = Some u -> u_L u = u_L (ext_i m)) /\
+  (forall l u, In l contra_ids -> ml_leaf m l = Some u -> u_L u = u_L (ext_c m)).
+Proof.
+  intros (H1 & H2 & _ & H4 & H5 & _). split; [|split].
+  - intros l u [<-|Hl] E.
+    + cbn [ml_leaf] in E. destruct (ml_central m) as [c|] eqn:Ec; [|discriminate]. injection E as <-. apply (H2 c eq_refl).
+    + apply H1, in_ipsi_leaves. exists l. tauto.
+  - intros l u Hl E. apply H4, in_ipsi_leaves. exists l. tauto.
+  - intros l u Hl E. apply H5, in_contra_leaves. exists l. tauto.
+Qed.
+
+Definition lnl_put (qs : list Qc) (ls : list leaf_id) : leaf_id -> uni -> uni :=
+  fun l u => if inb l ls then u_put_sel sel_lnl u qs else u.
+Lemma lnl_put_T qs ls l u : u_T (lnl_put qs ls l u) = u_T u.
+Proof. unfold lnl_put. destruct (inb l ls); [apply u_put_sel_T_lnl | reflexivity]. Qed.
+Lemma lnl_put_skel qs ls l u : skel (lnl_put qs ls l u) u.
+Proof. unfold lnl_put. destruct (inb l ls); [apply u_put_sel_skel | apply skel_refl]. Qed.
+Lemma lnl_put_config qs ls l u : same_config (lnl_put qs ls l u) u.
+Proof. unfold lnl_put. destruct (inb l ls); [apply u_put_sel_config | apply same_config_refl]. Qed.
+Lemma lnl_put_L_in qs ls l u : In l ls -> length qs = length (u_L u) -> u_L (lnl_put qs ls l u) = combine (map fst (u_L u)) qs.
+Proof.
+  intros Hl Hlen. unfold lnl_put. apply inb_In in Hl. rewrite Hl.
+  apply (u_sel_items_put sel_lnl u qs kind_sel_lnl Hlen).
+Qed.
+Lemma lnl_put_L_out qs ls l u : ~ In l ls -> u_L (lnl_put qs ls l u) = u_L u.
+Proof. intros Hl. unfold lnl_put. apply inb_false in Hl. rewrite Hl. reflexivity. Qed.
+
+Lemma NoDup_all_ids : NoDup [LCentralIpsi; LCentralContra; LExtIpsi; LExtContra; LNoextIpsi; LNoextContra].
+Proof. repeat constructor; cbn; intuition discriminate. Qed.
+Lemma NoDup_ipsi_block : NoDup [LCentralIpsi; LExtIpsi; LNoextIpsi].
+Proof. repeat constructor; cbn; intuition discriminate. Qed.
+Lemma NoDup_contra_block : NoDup [LCentralContra; LExtContra; LNoextContra].
+Proof. repeat constructor; cbn; intuition discriminate. Qed.
+
+Lemma m_lnl_strong m a kw : m_wf m = true -> m_consistent m ->
+  snd (m_set_lnl_spread_params m a kw) <> None ->
+  m_wf (fst (m_set_lnl_spread_params m a kw)) = true /\ m_shared (fst (m_set_lnl_spread_params m a kw)) /\
+  m_same_config (fst (m_set_lnl_spread_params m a kw)) /\ m_frame m (fst (m_set_lnl_spread_params m a kw)).
+Proof.
+  intros Hwf [Hsh Hcf] Hret.
+  destruct (shared_ids m Hsh) as (HidT & HidLi & HidLc).
+  pose proof Hsh as (_ & _ & Hmixm & _ & _ & HsymL).
+  unfold m_set_lnl_spread_params in *. destruct (unflatten_and_split kw ["ipsi"; "noext"; "ext"; "contra"]) as [split glob].
+  destruct (ml_symL m) eqn:EsL.
+  - (* symmetric: one block over all leaves *)
+    set (ids := [LCentralIpsi; LCentralContra; LExtIpsi; LExtContra; LNoextIpsi; LNoextContra]) in *.
+    assert (HallL : forall l u, In l ids -> ml_leaf m l = Some u -> u_names_ok u = true /\ u_L u = u_L (ext_i m)).
+    { intros l u Hl E. split; [apply (wf_leaf_names_ok m l u Hwf E)|].
+      destruct Hl as [<-|[<-|[<-|[<-|[<-|[<-|[]]]]]]].
+      - apply (HidLi LCentralIpsi); [cbn; tauto | exact E].
+      - rewrite <- (HsymL eq_refl). apply (HidLc LCentralContra); [cbn; tauto | exact E].
+      - apply (HidLi LExtIpsi); [cbn; tauto | exact E].
+      - rewrite <- (HsymL eq_refl). apply (HidLc LExtContra); [cbn; tauto | exact E].
+      - apply (HidLi LNoextIpsi); [cbn; tauto | exact E].
+      - rewrite <- (HsymL eq_refl). apply (HidLc LNoextContra); [cbn; tauto | exact E]. }
+    destruct (lnl_block_spec a glob (u_L (ext_i m)) ids m NoDup_all_ids) as (qs & E & Hlen & R & Hrel & Hmix & _);
+      [discriminate | cbn; discriminate | exact HallL | exact Hret |].
+    fold (lnl_put qs ids) in Hrel. set (m' := fst (m_set_lnl_block m ids a glob)) in *.
+    split; [|split; [|split]]; [| | |apply (mid_rel_frame _ m m' Hrel); intros; apply lnl_put_config].
+    + apply (mid_rel_wf _ m m' Hrel); [intros; apply lnl_put_skel | exact Hwf].
+    + apply (mid_rel_shared _ m m' Hrel (u_T (ext_i m)) (combine (map fst (u_L (ext_i m))) qs) (combine (map fst (u_L (ext_i m))) qs)).
+      * intros l u Hl Eu. rewrite lnl_put_T. apply (HidT l u Hl Eu).
+      * intros mix Hm. rewrite !lnl_put_T. apply Hmixm. rewrite <- Hmix. exact Hm.
+      * intros l u Hl Eu. assert (Hin : In l ids) by (unfold ids; cbn in *; tauto).
+        destruct (HallL l u Hin Eu) as [_ HLu]. rewrite lnl_put_L_in; [rewrite HLu; reflexivity | exact Hin | rewrite HLu; exact Hlen].
+      * intros l u Hl Eu. assert (Hin : In l ids) by (unfold ids; cbn in *; tauto).
+        destruct (HallL l u Hin Eu) as [_ HLu]. rewrite lnl_put_L_in; [rewrite HLu; reflexivity | exact Hin | rewrite HLu; exact Hlen].
+      * reflexivity.
+    + apply (mid_rel_config _ m m' Hrel); [intros; apply lnl_put_config | exact Hcf].
+  - (* asymmetric: the ipsilateral leaves, then the contralateral ones *)
+    destruct (andthen_ok _ _ Hret) as (a1 & Ha1 & Heq). rewrite Heq in *.
+    set (idsI := [LCentralIpsi; LExtIpsi; LNoextIpsi]) in *. set (idsC := [LCentralContra; LExtContra; LNoextContra]) in *.
+    assert (HallI : forall l u, In l idsI -> ml_leaf m l = Some u -> u_names_ok u = true /\ u_L u = u_L (ext_i m)).
+    { intros l u Hl E. split; [apply (wf_leaf_names_ok m l u Hwf E)|]. apply (HidLi l); [unfold idsI in Hl; cbn in *; tauto | exact E]. }
+    destruct (lnl_block_spec a (obj_kwargs "ipsi" split glob) (u_L (ext_i m)) idsI m NoDup_ipsi_block) as (qI & EI & HlenI & RI & HrelI & HmixI & _);
+      [discriminate | cbn; discriminate | exact HallI | rewrite Ha1; discriminate |].
+    fold (lnl_put qI idsI) in HrelI. set (m1 := fst (m_set_lnl_block m idsI a (obj_kwargs "ipsi" split glob))) in *.
+    assert (Hwf1 : m_wf m1 = true) by (apply (mid_rel_wf _ m m1 HrelI); [intros; apply lnl_put_skel | exact Hwf]).
+    assert (Hc1 : forall l, In l idsC -> ml_leaf m1 l = ml_leaf m l).
+    { intros l Hl. rewrite (mr_leaf _ _ _ HrelI l). destruct (ml_leaf m l) as [u|]; [|reflexivity]. cbn [option_map].
+      rewrite (proj2 (inb_false l idsI)) at 1 || idtac. unfold lnl_put.
+      assert (Hn : inb l idsI = false) by (apply inb_false; unfold idsI, idsC in *; cbn in *; intuition congruence).
+      rewrite Hn. reflexivity. }
+    assert (HallC : forall l u, In l idsC -> ml_leaf m1 l = Some u -> u_names_ok u = true /\ u_L u = u_L (ext_c m)).
+    { intros l u Hl E. split; [apply (wf_leaf_names_ok m1 l u Hwf1 E)|]. rewrite Hc1 in E by exact Hl.
+      apply (HidLc l); [unfold idsC in Hl; cbn in *; tauto | exact E]. }
+    destruct (lnl_block_spec a1 (obj_kwargs "contra" split glob) (u_L (ext_c m)) idsC m1 NoDup_contra_block) as (qC & EC & HlenC & RC & HrelC & HmixC & _);
+      [discriminate | cbn; discriminate | exact HallC | exact Hret |].
+    fold (lnl_put qC idsC) in HrelC. set (m2 := fst (m_set_lnl_block m1 idsC a1 (obj_kwargs "contra" split glob))) in *.
+    pose proof (mid_rel_trans _ _ _ _ _ HrelI HrelC) as Hrel. cbv beta in Hrel.
+    split; [|split; [|split]]; [| | |apply (mid_rel_frame _ m m2 Hrel); intros l u _; eapply same_config_trans; apply lnl_put_config].
+    + apply (mid_rel_wf _ m m2 Hrel); [|exact Hwf]. intros l u _. eapply skel_trans; apply lnl_put_skel.
+    + apply (mid_rel_shared _ m m2 Hrel (u_T (ext_i m)) (combine (map fst (u_L (ext_i m))) qI) (combine (map fst (u_L (ext_c m))) qC)).
+      * intros l u Hl Eu. rewrite !lnl_put_T. apply (HidT l u Hl Eu).
+      * intros mix Hm. rewrite !lnl_put_T. apply Hmixm. rewrite <- HmixI, <- HmixC. exact Hm.
+      * intros l u Hl Eu. assert (Hin : In l idsI) by (unfold idsI, ipsi_ids in *; cbn in *; tauto).
+        assert (Hout : ~ In l idsC) by (unfold idsC, ipsi_ids in *; cbn in *; intuition congruence).
+        rewrite lnl_put_L_out by exact Hout. destruct (HallI l u Hin Eu) as [_ HLu].
+        rewrite lnl_put_L_in; [rewrite HLu; reflexivity | exact Hin | rewrite HLu; exact HlenI].
+      * intros l u Hl Eu. assert (Hin : In l idsC) by (unfold idsC, contra_ids in *; cbn in *; tauto).
+        assert (Hout : ~ In l idsI) by (unfold idsI, contra_ids in *; cbn in *; intuition congruence).
+        assert (HLu : u_L u = u_L (ext_c m)) by (apply (HidLc l u Hl Eu)).
+        rewrite lnl_put_L_in; [|exact Hin | rewrite lnl_put_L_out by exact Hout; rewrite HLu; exact HlenC].
+        rewrite lnl_put_L_out by exact Hout. rewrite HLu. reflexivity.
+      * intros C. rewrite EsL in C. discriminate.
+    + apply (mid_rel_config _ m m2 Hrel); [|exact Hcf]. intros l u _.
+      eapply same_config_trans; apply lnl_put_config.
+Qed.
+Theorem midline_lnl_preserved : C11_midline_lnl_preserved_stmt.
+Proof.
+  intros m a kw Hwf Hc _ Hret m'. subst m'. cbn [m_call touches_dists] in *.
+  destruct (m_lnl_strong m a kw Hwf Hc Hret) as (H1 & H2 & H3 & _). split; [exact H1|]. split; [exact H2|]. intros _. exact H3.
+Qed.
+
+(** * Midline.set_tumor_spread_params *)
+(** lookups of the central model *)
+Lemma kw_last_None_notin {A} k (kw : list (path * A)) : ~ In k (map fst kw) -> kw_last k kw = None.
+Proof. intros H. unfold kw_last. apply kw_get_In_None. rewrite map_rev, <- in_rev. exact H. Qed.
+
+Lemma central_lookup kw split glob n s :
+  unflatten_and_split kw ["ipsi"; "noext"; "ext"; "contra"] = (split, glob) -> no_double_ipsi kw ->
+  ~ In n sides -> ~ In s sides ->
+  side_lk "ipsi" (obj_kwargs "ipsi" split glob) [n; s] = u_lk (obj_kwargs "ipsi" split glob) [n; s].
+Proof.
+  intros Hu Hnd Hn Hs. set (K := obj_kwargs "ipsi" split glob).
+  assert (HK : forall t, kw_last t K = eff ["ipsi"; "noext"; "ext"; "contra"] kw "ipsi" t).
+  { intros t. unfold K. rewrite kw_last_NoDup by (apply (obj_kwargs_NoDup kw _ _ _ _ Hu)).
+    apply (obj_kwargs_lookup kw _ "ipsi" t split glob); [cbn; intuition discriminate | exact Hu | cbn; tauto]. }
+  assert (Hdbl : forall t, kw_last ("ipsi" :: t) K = None).
+  { intros t. rewrite HK. unfold eff. rewrite kw_last_None_notin.
+    - reflexivity.
+    - intros Hin. specialize (Hnd _ Hin). cbn in Hnd. discriminate. }
+  unfold side_lk, u_lk, eff. rewrite !Hdbl. unfold head_of. cbn [partition_key fst].
+  apply mem_false in Hn. apply mem_false in Hs. rewrite Hn, Hs. reflexivity.
+Qed.
+
+Lemma T_key_form u k : u_names_ok u = true -> In k (map fst (u_T u)) ->
+  exists n s, k = [n; s] /\ ~ In n sides /\ ~ In s sides.
+Proof.
+  intros Hok Hk. apply sel_params_heads in Hk. destruct Hk as (e & s & He & _ & -> & Hs).
+  exists (e_name e), s. split; [reflexivity|]. split.
+  - intros Hn. apply (in_reserved_not_edge u (e_name e) Hok); [cbn in *; intuition | apply in_map, He].
+  - cbn in *. intuition; subst; discriminate.
+Qed.
+
+Lemma central_step c a ikw : b_names_ok c = true -> b_symT c = true ->
+  (forall k, In k (map fst (u_T (b_ipsi c))) -> side_lk "ipsi" ikw k = u_lk ikw k) ->
+  snd (b_set_tumor_spread_params c a ikw) <> None ->
+  exists qs, all_unit (plan (u_lk ikw) (u_T (b_ipsi c)) a) = Some qs /\ length qs = length (u_T (b_ipsi c)) /\
+    b_ipsi (fst (b_set_tumor_spread_params c a ikw)) = u_put_sel is_tumor_spread (b_ipsi c) qs /\
+    b_contra (fst (b_set_tumor_spread_params c a ikw)) = u_put_sel is_tumor_spread (b_contra c) qs /\
+    b_symT (fst (b_set_tumor_spread_params c a ikw)) = b_symT c.
+Proof.
+  intros Hok HsT Hlk Hret. unfold b_set_tumor_spread_params in *.
+  pose proof (b_side_spec is_tumor_spread (b_symT c) c a ikw kind_sel_tumor Hok) as Hs.
+  rewrite HsT in *. unfold side_plan in Hs. rewrite app_nil_r in Hs.
+  assert (Hp : plan (side_lk "ipsi" ikw) (u_sel_items is_tumor_spread (b_ipsi c)) a = plan (u_lk ikw) (u_T (b_ipsi c)) a)
+    by (apply plan_ext; exact Hlk).
+  rewrite Hp in Hs. destruct (all_unit (plan (u_lk ikw) (u_T (b_ipsi c)) a)) as [qs|] eqn:E; [|contradiction].
+  pose proof (all_unit_length _ _ E) as Hl. rewrite plan_length in Hl.
+  exists qs. rewrite Hs. cbn [fst]. unfold side_result, b_with. cbn [b_ipsi b_contra b_symT].
+  change (u_sel_items is_tumor_spread (b_ipsi c)) with (u_T (b_ipsi c)).
+  rewrite <- Hl, firstn_all. repeat split; assumption.
+Qed.
+
+(** the keyword arguments built for ext.contra are the mixture, name by name *)
+Lemma mixed_kwargs_spec mix m : u_names_ok (ext_i m) = true -> u_names_ok (noext_c m) = true ->
+  mixed_kwargs mix m = own_kwargs (mixed_items mix (u_T (ext_i m)) (u_T (noext_c m))).
+Proof.
+  intros Hi Hc. unfold mixed_kwargs, own_kwargs, mixed_items. fold (ext_i m) (noext_c m).
+  rewrite (u_tumor_flat _ Hi), (u_tumor_flat _ Hc), !items_leaves. rewrite map_map. reflexivity.
+Qed.
+
+Lemma mixed_items_keys mix Ti Tc : length Tc = length Ti -> map fst (mixed_items mix Ti Tc) = map fst Ti.
+Proof.
+  unfold mixed_items. revert Tc. induction Ti as [|[k v] Ti IH]; intros [|[k' v'] Tc] Hl; cbn [length] in Hl; try discriminate; [reflexivity|].
+  cbn [map combine fst snd]. f_equal. apply IH. lia.
+Qed.
+
+(** setting the tumour arcs of a leaf from complete keyword arguments *)
+Lemma leaf_set_own u M : u_names_ok u = true -> map fst M = map fst (u_T u) ->
+  snd (leaf_set is_tumor_spread u [] (own_kwargs M)) <> None ->
+  fst (leaf_set is_tumor_spread u [] (own_kwargs M)) = u_put_sel is_tumor_spread u (map snd M) /\
+  u_T (u_put_sel is_tumor_spread u (map snd M)) = M.
+Proof.
+  intros Hok Hkeys Hret.
+  assert (Hnd : NoDup (map fst M)) by (rewrite Hkeys; apply u_tumor_keys_NoDup, Hok).
+  assert (Hlen : length M = length (u_T u)) by (rewrite <- (map_length fst M), Hkeys, map_length; reflexivity).
+  assert (Hp : plan (u_lk (own_kwargs M)) (u_T u) [] = vals (map snd M)).
+  { apply plan_all_kw; [unfold vals; rewrite !map_length; exact Hlen|].
+    intros k v Hin. rewrite <- Hkeys in Hin.
+    assert (Hin' : In (k, v) (own_kwargs M)).
+    { clear - Hin. unfold own_kwargs, vals in *. induction M as [|[k' x] M IH]; [destruct Hin|].
+      cbn [map fst snd combine] in *. destruct Hin as [H|H]; [left; exact H | right; apply IH, H]. }
+    assert (Hk : In k (map fst (u_T u))) by (rewrite <- Hkeys; apply in_combine_l in Hin; exact Hin).
+    destruct (T_key_form u k Hok Hk) as (n & s & -> & _). unfold u_lk.
+    assert (Hnd' : NoDup (map fst (own_kwargs M))) by (unfold own_kwargs; rewrite map_map; cbn [fst]; exact Hnd).
+    rewrite (kw_last_NoDup _ _ Hnd'), (kw_get_NoDup_In _ _ _ Hnd' Hin'). reflexivity. }
+  destruct (leaf_set_cases is_tumor_spread u [] (own_kwargs M) Hok) as [N|(qs & E & Hl & R)]; [contradiction|].
+  change (u_sel_items is_tumor_spread u) with (u_T u) in *. rewrite Hp in E.
+  destruct (all_unit_Some_vals _ _ E) as [Hv _]. apply (f_equal unwrap) in Hv. rewrite !unwrap_vals in Hv. injection Hv as <-.
+  rewrite R. cbn [fst]. split; [reflexivity|].
+  change (u_T (u_put_sel is_tumor_spread u (map snd M))) with (u_sel_items is_tumor_spread (u_put_sel is_tumor_spread u (map snd M))).
+  rewrite u_sel_items_put by (try apply kind_sel_tumor; rewrite map_length; exact Hlen).
+  change (u_sel_items is_tumor_spread u) with (u_T u). rewrite <- Hkeys.
+  clear. induction M as [|[k v] M IH]; [reflexivity|]. cbn [map combine fst snd]. f_equal. exact IH.
+Qed.
+
+Definition tum_put (q : leaf_id -> option (list Qc)) : leaf_id -> uni -> uni :=
+  fun l u => match q l with Some qs => u_put_sel is_tumor_spread u qs | None => u end.
+Lemma tum_put_L q l u : u_L (tum_put q l u) = u_L u.
+Proof. unfold tum_put. destruct (q l); [apply u_put_sel_L_tumor | reflexivity]. Qed.
+Lemma tum_put_skel q l u : skel (tum_put q l u) u.
+Proof. unfold tum_put. destruct (q l); [apply u_put_sel_skel | apply skel_refl]. Qed.
+Lemma tum_put_config q l u : same_config (tum_put q l u) u.
+Proof. unfold tum_put. destruct (q l); [apply u_put_sel_config | apply same_config_refl]. Qed.
+Lemma tum_put_T_some q l u qs : q l = Some qs -> length qs = length (u_T u) -> u_T (tum_put q l u) = combine (map fst (u_T u)) qs.
+Proof. intros E Hl. unfold tum_put. rewrite E. apply (u_sel_items_put is_tumor_spread u qs kind_sel_tumor Hl). Qed.
+Lemma tum_put_T_none q l u : q l = None -> u_T (tum_put q l u) = u_T u.
+Proof. intros E. unfold tum_put. rewrite E. reflexivity. Qed.
+
+(** one leaf of a midline model receives new tumour spread values *)
+Lemma tumor_leaf_step m l u a kw : ml_leaf m l = Some u -> u_names_ok u = true ->
+  snd (u_set_tumor_spread_params u a kw) <> None ->
+  exists qs, all_unit (plan (u_lk kw) (u_T u) a) = Some qs /\ length qs = length (u_T u) /\
+    u_set_tumor_spread_params u a kw = (u_put_sel is_tumor_spread u qs, Some (skipn (length (u_T u)) a)) /\
+    mid_rel (tum_put (fun l' => if leaf_eqb l' l then Some qs else None)) m (ml_with_leaf m l (u_put_sel is_tumor_spread u qs)).
+Proof.
+  intros El Hok Hret. rewrite u_set_tumor_is_leaf_set in *.
+  destruct (leaf_set_cases is_tumor_spread u a kw Hok) as [N|(qs & E & Hl & R)]; [contradiction|].
+  exists qs. split; [exact E|]. split; [exact Hl|]. split; [exact R|].
+  eapply mid_rel_ext; [|apply (mid_rel_with_leaf m l u _ El)]. intros l' v Hv. unfold tum_put. cbv beta.
+  destruct (leaf_eqb l' l) eqn:Eq; [|reflexivity]. apply leaf_eqb_eq in Eq. subst l'. rewrite El in Hv. injection Hv as <-. reflexivity.
+Qed.
+
+(** Midline.set_tumor_spread_params cut into its steps (same function, by conversion) *)
+Definition tum6 (m5 : midline) (mix : Qc) (a5 : args) : midline * option args :=
+  let '(ec, ok6) := ok_of (u_set_tumor_spread_params (b_contra (ml_ext m5)) [] (mixed_kwargs mix m5)) in
+  (ml_with_ext m5 (b_with_contra (ml_ext m5) ec), if ok6 then Some a5 else None).
+Definition tum5 (m4 : midline) (glob : kwargs) (cur : Qc) (a4 : args) : midline * option args :=
+  let '(first, a5) := popfirst a4 in
+  match check_unit (match kw_get ["mixing"] glob with Some v => v | None => val_or first cur end) with
+  | None => (m4, None)
+  | Some mix => tum6 (ml_with_mixing m4 mix) mix a5
+  end.
+Definition tum4 (m3 : midline) (split : list (string * kwargs)) (glob : kwargs) (a3 : args) : midline * option args :=
+  match ml_mixing m3 with
+  | Some cur =>
+      let '(nc, o4) := u_set_tumor_spread_params (b_contra (ml_noext m3)) a3 (obj_kwargs "contra" split glob) in
+      match o4 with
+      | None => (ml_with_noext m3 (b_with_contra (ml_noext m3) nc), None)
+      | Some a4 => tum5 (ml_with_noext m3 (b_with_contra (ml_noext m3) nc)) glob cur a4
+      end
+  | None =>
+      let '(noext_split, _) := unflatten_and_split (sub_kwargs "noext" split) ["contra"] in
+      let '(nc, o4) := u_set_tumor_spread_params (b_contra (ml_noext m3)) a3 (obj_kwargs "contra" noext_split glob) in
+      let m4 := ml_with_noext m3 (b_with_contra (ml_noext m3) nc) in
+      match o4 with
+      | None => (m4, None)
+      | Some a4 =>
+          let '(ext_split, _) := unflatten_and_split (sub_kwargs "ext" split) ["contra"] in
+          let '(ec, o5) := u_set_tumor_spread_params (b_contra (ml_ext m4)) a4 (obj_kwargs "contra" ext_split glob) in
+          (ml_with_ext m4 (b_with_contra (ml_ext m4) ec), o5)
+      end
+  end.
+Definition tum3 (m2 : midline) (split : list (string * kwargs)) (glob ikw : kwargs) (a : args) : midline * option args :=
+  let '(ni, o3) := u_set_tumor_spread_params (b_ipsi (ml_noext m2)) a ikw in
+  match o3 with
+  | None => (ml_with_noext m2 (b_with_ipsi (ml_noext m2) ni), None)
+  | Some a3 => tum4 (ml_with_noext m2 (b_with_ipsi (ml_noext m2) ni)) split glob a3
+  end.
+Definition tum2 (m1 : midline) (split : list (string * kwargs)) (glob ikw : kwargs) (a : args) : midline * option args :=
+  let '(ei, ok2) := ok_of (u_set_tumor_spread_params (b_ipsi (ml_ext m1)) a ikw) in
+  if negb ok2 then (ml_with_ext m1 (b_with_ipsi (ml_ext m1) ei), None)
+  else tum3 (ml_with_ext m1 (b_with_ipsi (ml_ext m1) ei)) split glob ikw a.
+Definition tum1 (m : midline) (split : list (string * kwargs)) (glob : kwargs) (a : args) : midline * option args :=
+  let ikw := obj_kwargs "ipsi" split glob in
+  let '(m1, ok1) :=
+    match ml_central m with
+    | None => (m, true)
+    | Some c => let '(c', ok) := ok_of (b_set_tumor_spread_params c a ikw) in (ml_with_central m c', ok)
+    end in
+  if negb ok1 then (m1, None) else tum2 m1 split glob ikw a.
+Lemma tum_eq m a kw :
+  m_set_tumor_spread_params m a kw
+  = let '(split, glob) := unflatten_and_split kw ["ipsi"; "noext"; "ext"; "contra"] in tum1 m split glob a.
+Proof. reflexivity. Qed.
+
+Lemma wf_parts m : m_wf m = true ->
+  b_names_ok (ml_ext m) = true /\ b_names_ok (ml_noext m) = true /\
+  (forall c, ml_central m = Some c -> b_names_ok c = true /\ b_symT c = true).
+Proof.
+  unfold m_wf. rewrite !andb_true_iff. intros [[[He Hn] Hc] _]. repeat split; try assumption;
+    subst; rewrite H in Hc; cbn [opt_ok] in Hc; apply andb_true_iff in Hc; tauto.
+Qed.
+Lemma wf_T_keys m : m_wf m = true ->
+  map fst (u_T (ext_c m)) = map fst (u_T (ext_i m)) /\ map fst (u_T (noext_c m)) = map fst (u_T (noext_i m)).
+Proof. intros H. destruct (wf_parts m H) as (He & Hn & _). split; [apply (contra_T_keys _ He) | apply (contra_T_keys _ Hn)]. Qed.
+
+Definition q2 (l1 : leaf_id) (q1 : list Qc) (l2 : leaf_id) (q2 : list Qc) : leaf_id -> option (list Qc) :=
+  fun l => if leaf_eqb l l1 then Some q1 else if leaf_eqb l l2 then Some q2 else None.
+Definition q1 (l1 : leaf_id) (qs : list Qc) : leaf_id -> option (list Qc) := fun l => if leaf_eqb l l1 then Some qs else None.
+
+Lemma tum6_spec m5 mix a5 : m_wf m5 = true -> u_T (noext_i m5) = u_T (ext_i m5) ->
+  snd (tum6 m5 mix a5) <> None ->
+  let M := mixed_items mix (u_T (ext_i m5)) (u_T (noext_c m5)) in
+  snd (tum6 m5 mix a5) = Some a5 /\
+  mid_rel (tum_put (q1 LExtContra (map snd M))) m5 (fst (tum6 m5 mix a5)) /\
+  u_T (u_put_sel is_tumor_spread (ext_c m5) (map snd M)) = M /\
+  ml_mixing (fst (tum6 m5 mix a5)) = ml_mixing m5.
+Proof.
+  intros Hwf HTn Hret M. destruct (wf_T_keys m5 Hwf) as [Kec Knc].
+  assert (Hei : u_names_ok (ext_i m5) = true) by (apply (wf_leaf_names_ok m5 LExtIpsi _ Hwf); reflexivity).
+  assert (Hec : u_names_ok (ext_c m5) = true) by (apply (wf_leaf_names_ok m5 LExtContra _ Hwf); reflexivity).
+  assert (Hnc : u_names_ok (noext_c m5) = true) by (apply (wf_leaf_names_ok m5 LNoextContra _ Hwf); reflexivity).
+  assert (HkM : map fst M = map fst (u_T (ext_c m5))).
+  { unfold M. rewrite mixed_items_keys; [symmetry; exact Kec|].
+    rewrite <- (map_length fst (u_T (noext_c m5))), Knc, HTn, map_length. reflexivity. }
+  revert Hret. unfold tum6. rewrite (mixed_kwargs_spec mix m5 Hei Hnc). fold M. fold (ext_c m5).
+  rewrite u_set_tumor_is_leaf_set. intros Hret.
+  assert (Hret' : snd (leaf_set is_tumor_spread (ext_c m5) [] (own_kwargs M)) <> None).
+  { intros C. apply Hret. destruct (leaf_set is_tumor_spread (ext_c m5) [] (own_kwargs M)) as [ec o]. cbn in C. subst o. reflexivity. }
+  destruct (leaf_set_own (ext_c m5) M Hec HkM Hret') as [Hfst HT].
+  destruct (leaf_set is_tumor_spread (ext_c m5) [] (own_kwargs M)) as [ec [r|]]; [|contradiction]. cbn [fst snd ok_of] in *. subst ec.
+  split; [reflexivity|]. split; [|split; [exact HT | reflexivity]].
+  eapply mid_rel_ext; [|apply (mid_rel_with_leaf m5 LExtContra (ext_c m5) _ eq_refl)].
+  intros l v Hv. unfold tum_put, q1. destruct (leaf_eqb l LExtContra) eqn:Eq; [|reflexivity].
+  apply leaf_eqb_eq in Eq. subst l. cbn in Hv. injection Hv as <-. reflexivity.
+Qed.
+
+Lemma tum5_spec m4 glob cur a4 : m_wf m4 = true -> u_T (noext_i m4) = u_T (ext_i m4) ->
+  snd (tum5 m4 glob cur a4) <> None ->
+  exists mix, let M := mixed_items mix (u_T (ext_i m4)) (u_T (noext_c m4)) in
+    mid_rel (tum_put (q1 LExtContra (map snd M))) m4 (fst (tum5 m4 glob cur a4)) /\
+    u_T (u_put_sel is_tumor_spread (ext_c m4) (map snd M)) = M /\
+    ml_mixing (fst (tum5 m4 glob cur a4)) = Some mix.
+Proof.
+  intros Hwf HTn. unfold tum5. destruct (popfirst a4) as [first a5].
+  destruct (check_unit _) as [mix|]; [|intros C; contradiction]. intros Hret.
+  set (m5 := ml_with_mixing m4 mix) in *.
+  assert (Hwf5 : m_wf m5 = true) by exact Hwf.
+  destruct (tum6_spec m5 mix a5 Hwf5 HTn Hret) as (_ & Hrel & HT & Hmix).
+  exists mix. cbv zeta. split; [|split; [exact HT | rewrite Hmix; reflexivity]].
+  eapply mid_rel_ext; [|exact (mid_rel_trans _ _ _ _ _ (mid_rel_with_mixing m4 mix) Hrel)]. reflexivity.
+Qed.
+
+Lemma tum4_spec m3 split glob a3 : m_wf m3 = true -> u_T (noext_i m3) = u_T (ext_i m3) ->
+  snd (tum4 m3 split glob a3) <> None ->
+  exists qN qE, length qN = length (u_T (noext_c m3)) /\ length qE = length (u_T (ext_c m3)) /\
+    mid_rel (tum_put (q2 LNoextContra qN LExtContra qE)) m3 (fst (tum4 m3 split glob a3)) /\
+    (forall mix, ml_mixing (fst (tum4 m3 split glob a3)) = Some mix ->
+       u_T (u_put_sel is_tumor_spread (ext_c m3) qE)
+       = mixed_items mix (u_T (ext_i m3)) (u_T (u_put_sel is_tumor_spread (noext_c m3) qN))).
+Proof.
+  intros Hwf HTn. unfold tum4.
+  assert (Hnc : u_names_ok (noext_c m3) = true) by (apply (wf_leaf_names_ok m3 LNoextContra _ Hwf); reflexivity).
+  assert (Hec : u_names_ok (ext_c m3) = true) by (apply (wf_leaf_names_ok m3 LExtContra _ Hwf); reflexivity).
+  destruct (ml_mixing m3) as [cur|] eqn:Emix.
+  - (* use_mixing *)
+    fold (noext_c m3).
+    destruct (u_set_tumor_spread_params (noext_c m3) a3 (obj_kwargs "contra" split glob)) as [nc o4] eqn:E4.
+    destruct o4 as [a4|]; [|intros C; contradiction]. intros Hret.
+    destruct (tumor_leaf_step m3 LNoextContra (noext_c m3) a3 (obj_kwargs "contra" split glob) eq_refl Hnc) as (qN & _ & HlN & R & Hrel4); [rewrite E4; discriminate|].
+    rewrite E4 in R. injection R as -> _.
+    change (ml_with_noext m3 (b_with_contra (ml_noext m3) (u_put_sel is_tumor_spread (noext_c m3) qN)))
+      with (ml_with_leaf m3 LNoextContra (u_put_sel is_tumor_spread (noext_c m3) qN)) in *.
+    set (m4 := ml_with_leaf m3 LNoextContra (u_put_sel is_tumor_spread (noext_c m3) qN)) in *.
+    assert (Hwf4 : m_wf m4 = true) by (apply (mid_rel_wf _ m3 m4 Hrel4); [intros; apply tum_put_skel | exact Hwf]).
+    assert (HTn4 : u_T (noext_i m4) = u_T (ext_i m4)) by exact HTn.
+    destruct (tum5_spec m4 glob cur a4 Hwf4 HTn4 Hret) as (mix & Hrel5 & HT & Hmix5). cbv zeta in *.
+    set (M := mixed_items mix (u_T (ext_i m4)) (u_T (noext_c m4))) in *.
+    exists qN, (map snd M). split; [exact HlN|]. split.
+    + rewrite map_length. unfold M. unfold mixed_items. rewrite map_length, combine_length, map_length.
+      destruct (wf_T_keys m4 Hwf4) as [Kec Knc].
+      assert (L1 : length (u_T (noext_c m4)) = length (u_T (ext_i m4))).
+      { rewrite <- (map_length fst (u_T (noext_c m4))), Knc, HTn4, map_length. reflexivity. }
+      assert (L2 : length (u_T (ext_c m4)) = length (u_T (ext_i m4))).
+      { rewrite <- (map_length fst (u_T (ext_c m4))), Kec, map_length. reflexivity. }
+      change (ext_c m4) with (ext_c m3) in L2. rewrite L1, L2. apply Nat.min_id.
+    + split.
+      * eapply mid_rel_ext; [|exact (mid_rel_trans _ _ _ _ _ Hrel4 Hrel5)]. intros l v _. unfold tum_put, q1, q2. cbv beta.
+        destruct (leaf_eqb l LNoextContra) eqn:E1; [apply leaf_eqb_eq in E1; subst l; reflexivity|].
+        destruct (leaf_eqb l LExtContra); reflexivity.
+      * intros mix' Hm. rewrite Hmix5 in Hm. injection Hm as <-. exact HT.
+  - (* no mixing: two independent contralateral spreads *)
+    destruct (unflatten_and_split (sub_kwargs "noext" split) ["contra"]) as [nsplit ?].
+    fold (noext_c m3).
+    destruct (u_set_tumor_spread_params (noext_c m3) a3 (obj_kwargs "contra" nsplit glob)) as [nc o4] eqn:E4.
+    destruct o4 as [a4|]; [|intros C; contradiction].
+    destruct (tumor_leaf_step m3 LNoextContra (noext_c m3) a3 (obj_kwargs "contra" nsplit glob) eq_refl Hnc) as (qN & _ & HlN & R & Hrel4); [rewrite E4; discriminate|].
+    rewrite E4 in R. injection R as -> _.
+    change (ml_with_noext m3 (b_with_contra (ml_noext m3) (u_put_sel is_tumor_spread (noext_c m3) qN)))
+      with (ml_with_leaf m3 LNoextContra (u_put_sel is_tumor_spread (noext_c m3) qN)) in *.
+    set (m4 := ml_with_leaf m3 LNoextContra (u_put_sel is_tumor_spread (noext_c m3) qN)) in *.
+    destruct (unflatten_and_split (sub_kwargs "ext" split) ["contra"]) as [esplit ?].
+    change (b_contra (ml_ext m4)) with (ext_c m3).
+    destruct (u_set_tumor_spread_params (ext_c m3) a4 (obj_kwargs "contra" esplit glob)) as [ec o5] eqn:E5.
+    cbn [snd fst]. intros Hret.
+    destruct (tumor_leaf_step m4 LExtContra (ext_c m3) a4 (obj_kwargs "contra" esplit glob) eq_refl Hec) as (qE & _ & HlE & R & Hrel5); [rewrite E5; exact Hret|].
+    rewrite E5 in R. injection R as -> _.
+    exists qN, qE. split; [exact HlN|]. split; [exact HlE|]. split.
+    + eapply mid_rel_ext; [|exact (mid_rel_trans _ _ _ _ _ Hrel4 Hrel5)]. intros l v _. unfold tum_put, q2. cbv beta.
+      destruct (leaf_eqb l LNoextContra) eqn:E1; [apply leaf_eqb_eq in E1; subst l; reflexivity|].
+      destruct (leaf_eqb l LExtContra); reflexivity.
+    + intros mix Hm. cbn in Hm. rewrite Emix in Hm. discriminate.
+Qed.
+
+Lemma put_T_keys u qs : length qs = length (u_T u) -> u_T (u_put_sel is_tumor_spread u qs) = combine (map fst (u_T u)) qs.
+Proof. intros H. apply (u_sel_items_put is_tumor_spread u qs kind_sel_tumor H). Qed.
+
+Lemma m_tumor_strong m a kw : m_wf m = true -> m_consistent m -> (ml_central m <> None -> no_double_ipsi kw) ->
+  snd (m_set_tumor_spread_params m a kw) <> None ->
+  m_wf (fst (m_set_tumor_spread_params m a kw)) = true /\ m_shared (fst (m_set_tumor_spread_params m a kw)) /\
+  m_same_config (fst (m_set_tumor_spread_params m a kw)) /\ m_frame m (fst (m_set_tumor_spread_params m a kw)).
+Proof.
+  intros Hwf [Hsh Hcf] Hndi Hret.
+  destruct (shared_ids m Hsh) as (HidT & HidLi & HidLc).
+  pose proof Hsh as (_ & _ & _ & _ & _ & HsymL).
+  rewrite tum_eq in *. destruct (unflatten_and_split kw ["ipsi"; "noext"; "ext"; "contra"]) as [split glob] eqn:Hu.
+  revert Hret. unfold tum1. set (ikw := obj_kwargs "ipsi" split glob).
+  set (T0 := u_T (ext_i m)) in *.
+  (* step 1: the central model *)
+  match goal with |- context [let '(m1, ok1) := ?X in _] => destruct X as [m1 ok1] eqn:E1 end.
+  destruct ok1; cbn [negb]; [|intros C; contradiction]. intros Hret.
+  assert (S1 : exists qq1, mid_rel (tum_put qq1) m m1 /\ ml_mixing m1 = ml_mixing m /\
+                (forall l u, In l [LCentralIpsi; LCentralContra] -> ml_leaf m l = Some u ->
+                   exists qs, qq1 l = Some qs /\ all_unit (plan (u_lk ikw) T0 a) = Some qs /\ length qs = length T0) /\
+                (forall l, ~ In l [LCentralIpsi; LCentralContra] -> qq1 l = None)).
+  { destruct (ml_central m) as [c|] eqn:Ec.
+    - destruct (wf_parts m Hwf) as (_ & _ & Hcen). destruct (Hcen c Ec) as [Hcok HcT].
+      assert (HTci : u_T (b_ipsi c) = T0) by (apply (HidT LCentralIpsi); [cbn; tauto | cbn; rewrite Ec; reflexivity]).
+      assert (HTcc : u_T (b_contra c) = T0) by (apply (HidT LCentralContra); [cbn; tauto | cbn; rewrite Ec; reflexivity]).
+      destruct (b_set_tumor_spread_params c a ikw) as [c' o1] eqn:Eb. cbn [ok_of fst snd] in E1. injection E1 as <- Hok1.
+      destruct o1 as [a1|]; [|discriminate].
+      destruct (central_step c a ikw Hcok HcT) as (qc & Eqc & Hlc & Hci & Hcc & HsT').
+      { intros k Hk. destruct (T_key_form (b_ipsi c) k) as (n & s & -> & Hn & Hs); [apply (b_names_ok_parts c Hcok) | exact Hk|].
+        apply (central_lookup kw split glob n s Hu); [apply Hndi; discriminate | exact Hn | exact Hs]. }
+      { rewrite Eb. discriminate. }
+      rewrite Eb in Hci, Hcc, HsT'. cbn [fst] in Hci, Hcc, HsT'. rewrite HTci in Eqc, Hlc.
+      exists (q2 LCentralIpsi qc LCentralContra qc). split; [|split; [reflexivity|split]].
+      + eapply mid_rel_ext; [|apply (mid_rel_with_central m c c' Ec HsT')]. intros l v Hv. unfold tum_put, q2.
+        destruct l; cbn [leaf_eqb]; try reflexivity; cbn [ml_leaf] in Hv; rewrite Ec in Hv; injection Hv as <-; assumption.
+      + intros l u [<-|[<-|[]]] _; exists qc; repeat split; assumption.
+      + intros l Hl. unfold q2. destruct l; cbn [leaf_eqb]; try reflexivity; exfalso; apply Hl; cbn; tauto.
+    - injection E1 as <-. exists (fun _ => None). split; [|split; [reflexivity|split]].
+      + eapply mid_rel_ext; [|apply mid_rel_refl]. reflexivity.
+      + intros l u [<-|[<-|[]]] E; cbn [ml_leaf] in E; rewrite Ec in E; discriminate.
+      + reflexivity. }
+  clear E1. destruct S1 as (qq1 & Hrel1 & Hmix1 & Hq1in & Hq1out).
+  assert (Hwf1 : m_wf m1 = true) by (apply (mid_rel_wf _ m m1 Hrel1); [intros; apply tum_put_skel | exact Hwf]).
+  assert (Id1 : forall l v, ~ In l [LCentralIpsi; LCentralContra] -> tum_put qq1 l v = v).
+  { intros l v Hl. unfold tum_put. rewrite (Hq1out l Hl). reflexivity. }
+  (* step 2: ext.ipsi *)
+  unfold tum2 in Hret |- *. revert Hret.
+  assert (Ei1 : ext_i m1 = ext_i m) by (rewrite (mr_ext_i _ _ _ Hrel1); apply Id1; cbn; intuition discriminate).
+  fold (ext_i m1). rewrite Ei1.
+  destruct (u_set_tumor_spread_params (ext_i m) a ikw) as [ei o2] eqn:E2. cbn [ok_of fst snd].
+  destruct o2 as [a2|]; cbn [negb]; [|intros C; contradiction]. intros Hret.
+  assert (El2 : ml_leaf m1 LExtIpsi = Some (ext_i m)) by (cbn [ml_leaf]; fold (ext_i m1); rewrite Ei1; reflexivity).
+  assert (Hei : u_names_ok (ext_i m) = true) by (apply (wf_leaf_names_ok m LExtIpsi _ Hwf); reflexivity).
+  destruct (tumor_leaf_step m1 LExtIpsi (ext_i m) a ikw El2 Hei) as (qI & EqI & HlI & R2 & Hrel2); [rewrite E2; discriminate|].
+  fold T0 in EqI, HlI. rewrite E2 in R2. injection R2 as -> _.
+  change (ml_with_ext m1 (b_with_ipsi (ml_ext m1) (u_put_sel is_tumor_spread (ext_i m) qI)))
+    with (ml_with_leaf m1 LExtIpsi (u_put_sel is_tumor_spread (ext_i m) qI)) in *.
+  set (m2 := ml_with_leaf m1 LExtIpsi (u_put_sel is_tumor_spread (ext_i m) qI)) in *.
+  pose proof (mid_rel_trans _ _ _ _ _ Hrel1 Hrel2) as Hrel12. cbv beta in Hrel12.
+  (* step 3: noext.ipsi *)
+  unfold tum3 in Hret |- *. revert Hret.
+  assert (Ni2 : noext_i m2 = noext_i m).
+  { rewrite (mr_noext_i _ _ _ Hrel12). unfold tum_put at 1, q1. cbn [leaf_eqb]. apply Id1. cbn; intuition discriminate. }
+  fold (noext_i m2). rewrite Ni2.
+  destruct (u_set_tumor_spread_params (noext_i m) a ikw) as [ni o3] eqn:E3.
+  destruct o3 as [a3|]; [|intros C; contradiction]. intros Hret.
+  assert (El3 : ml_leaf m2 LNoextIpsi = Some (noext_i m)) by (cbn [ml_leaf]; fold (noext_i m2); rewrite Ni2; reflexivity).
+  assert (Hni : u_names_ok (noext_i m) = true) by (apply (wf_leaf_names_ok m LNoextIpsi _ Hwf); reflexivity).
+  assert (HTni : u_T (noext_i m) = T0) by (apply (HidT LNoextIpsi); [cbn; tauto | reflexivity]).
+  destruct (tumor_leaf_step m2 LNoextIpsi (noext_i m) a ikw El3 Hni) as (qI' & EqI' & HlI' & R3 & Hrel3); [rewrite E3; discriminate|].
+  rewrite HTni in EqI', HlI'. rewrite EqI in EqI'. injection EqI' as <-.
+  rewrite E3 in R3. injection R3 as -> _.
+  change (ml_with_noext m2 (b_with_ipsi (ml_noext m2) (u_put_sel is_tumor_spread (noext_i m) qI)))
+    with (ml_with_leaf m2 LNoextIpsi (u_put_sel is_tumor_spread (noext_i m) qI)) in *.
+  set (m3 := ml_with_leaf m2 LNoextIpsi (u_put_sel is_tumor_spread (noext_i m) qI)) in *.
+  pose proof (mid_rel_trans _ _ _ _ _ Hrel12 Hrel3) as Hrel123. cbv beta in Hrel123.
+  assert (Hwf3 : m_wf m3 = true).
+  { apply (mid_rel_wf _ m m3 Hrel123); [|exact Hwf]. intros l u _. eapply skel_trans; [apply tum_put_skel|]. eapply skel_trans; apply tum_put_skel. }
+  assert (Ei3 : ext_i m3 = u_put_sel is_tumor_spread (ext_i m) qI).
+  { rewrite (mr_ext_i _ _ _ Hrel123). unfold tum_put at 1 2, q1. cbn [leaf_eqb]. rewrite Id1 by (cbn; intuition discriminate). reflexivity. }
+  assert (Ni3 : noext_i m3 = u_put_sel is_tumor_spread (noext_i m) qI).
+  { rewrite (mr_noext_i _ _ _ Hrel123). unfold tum_put at 1 2, q1. cbn [leaf_eqb]. rewrite Id1 by (cbn; intuition discriminate). reflexivity. }
+  assert (Ec3 : ext_c m3 = ext_c m).
+  { rewrite (mr_ext_c _ _ _ Hrel123). unfold tum_put at 1 2, q1. cbn [leaf_eqb]. apply Id1. cbn; intuition discriminate. }
+  assert (Nc3 : noext_c m3 = noext_c m).
+  { rewrite (mr_noext_c _ _ _ Hrel123). unfold tum_put at 1 2, q1. cbn [leaf_eqb]. apply Id1. cbn; intuition discriminate. }
+  assert (HTn3 : u_T (noext_i m3) = u_T (ext_i m3)).
+  { rewrite Ei3, Ni3, !put_T_keys by (rewrite ?HTni; exact HlI). rewrite HTni. reflexivity. }
+  (* step 4: the contralateral side *)
+  destruct (tum4_spec m3 split glob a3 Hwf3 HTn3 Hret) as (qN & qE & HlN & HlE & Hrel4 & Hmix4).
+  set (m4 := fst (tum4 m3 split glob a3)) in *.
+  pose proof (mid_rel_trans _ _ _ _ _ Hrel123 Hrel4) as Hrel. cbv beta in Hrel.
+  set (TI := combine (map fst T0) qI).
+  assert (Hcfg_tr : forall l u, ml_leaf m l = Some u ->
+            same_config (tum_put (q2 LNoextContra qN LExtContra qE) l (tum_put (fun l' => if leaf_eqb l' LNoextIpsi then Some qI else None) l
+                           (tum_put (fun l' => if leaf_eqb l' LExtIpsi then Some qI else None) l (tum_put qq1 l u)))) u).
+  { intros l u _. eapply same_config_trans; [apply tum_put_config|]. eapply same_config_trans; [apply tum_put_config|].
+    eapply same_config_trans; apply tum_put_config. }
+  split; [|split; [|split]]; [| | |apply (mid_rel_frame _ m m4 Hrel Hcfg_tr)].
+  - apply (mid_rel_wf _ m m4 Hrel); [|exact Hwf]. intros l u _.
+    eapply skel_trans; [apply tum_put_skel|]. eapply skel_trans; [apply tum_put_skel|]. eapply skel_trans; apply tum_put_skel.
+  - apply (mid_rel_shared _ m m4 Hrel TI (u_L (ext_i m)) (u_L (ext_c m))).
+    + intros l u Hl Eu. pose proof (HidT l u Hl Eu) as HTu. fold T0 in HTu.
+      destruct Hl as [<-|[<-|[<-|[<-|[]]]]]; unfold tum_put at 1 2 3, q1, q2; cbn [leaf_eqb].
+      * destruct (Hq1in LCentralContra u (or_intror (or_introl eq_refl)) Eu) as (qs & Eq & Ea & Hls).
+        rewrite EqI in Ea. injection Ea as <-. unfold tum_put. rewrite Eq. rewrite put_T_keys by (rewrite HTu; exact HlI). rewrite HTu. reflexivity.
+      * rewrite Id1 by (cbn; intuition discriminate). cbn [ml_leaf] in Eu. injection Eu as <-.
+        rewrite put_T_keys by exact HlI. reflexivity.
+      * rewrite Id1 by (cbn; intuition discriminate). cbn [ml_leaf] in Eu. injection Eu as <-. fold (noext_i m).
+        rewrite put_T_keys by (rewrite HTni; exact HlI). rewrite HTni. reflexivity.
+      * destruct (Hq1in LCentralIpsi u (or_introl eq_refl) Eu) as (qs & Eq & Ea & Hls).
+        rewrite EqI in Ea. injection Ea as <-. unfold tum_put. rewrite Eq. rewrite put_T_keys by (rewrite HTu; exact HlI). rewrite HTu. reflexivity.
+    + intros mix Hm. unfold tum_put at 1 2 3 5 6 7, q1, q2. cbn [leaf_eqb]. rewrite !Id1 by (cbn; intuition discriminate).
+      specialize (Hmix4 mix Hm). rewrite Ec3, Nc3, Ei3 in Hmix4. rewrite (put_T_keys (ext_i m) qI HlI) in Hmix4. exact Hmix4.
+    + intros l u Hl Eu. rewrite !tum_put_L. apply (HidLi l u Hl Eu).
+    + intros l u Hl Eu. rewrite !tum_put_L. apply (HidLc l u Hl Eu).
+    + exact HsymL.
+  - apply (mid_rel_config _ m m4 Hrel Hcfg_tr Hcf).
+Qed.
+Theorem midline_tumor_preserved : C11_midline_tumor_preserved_stmt.
+Proof.
+  intros m a kw Hwf Hc Hndi Hret m'. subst m'. cbn [m_call touches_dists] in *.
+  destruct (m_tumor_strong m a kw Hwf Hc Hndi Hret) as (H1 & H2 & H3 & _). split; [exact H1|]. split; [exact H2|]. intros _. exact H3.
+Qed.
